@@ -121,7 +121,10 @@ class KeyAction(object):
                 raise PGPError("No key!")
 
             # if a key is in the process of being created, it needs to be allowed to certify its own user id
-            if len(key._uids) == 0 and key.is_primary and action is not key.certify.__wrapped__:
+            # (a user id or attribute that belongs to no other key), and nothing else
+            first_selfcert = action is key.certify.__wrapped__ and len(args) > 0 \
+                and hasattr(args[0], 'is_uid') and (args[0].parent is None or args[0].parent is key)
+            if len(key._uids) == 0 and key.is_primary and not first_selfcert:
                 raise PGPError("Key is not complete - please add a User ID!")
 
             with self.usage(key, kwargs.get('user', None)) as _key:
